@@ -21,6 +21,12 @@ def _force_2d_filter(run_seed, filt):
     for k in range(64):
         sc = FW.generate(r_seed + k, filt, 'sched')
         sc['knobs']['with_altitude'] = False
+        if (r_seed + k) % 3 == 0:
+            # a coarse initial fix: position sigma and error of 0.1 - 1 km
+            f = 10.0 ** (2.0 + ((r_seed + k) % 1000) / 1000.0) / sc['knobs']['sigmas'][0]
+            sc['knobs']['sigmas'][0] *= f
+            sc['knobs']['init_err'][:3] = [x * f for x in sc['knobs']['init_err'][:3]]
+            sc['faults'].append(dict(kind='coarse_initial_position', factor=float(f)))
         try:
             if FW.materialise(sc, fence_only=True)['in_fence']:
                 return sc
